@@ -1,19 +1,20 @@
 import BSModel.Proofs.Text
 import BSModel.Proofs.TextHeap
 import BSModel.Props.C01
+import BSModel.Props.C03
 import BSModel.Gen.Text
 /-! # C13 — text extraction returns exactly the interesting strings, in document order
 
 Property theorems only. `allStringsImpl`, `getTextImpl`, `stringsImpl`, `strippedStringsImpl`, `textImpl`, `stringProp`,
 `interestingFor`, `stringContainer` mirror `bs4/element.py` and `bs4/__init__.py` statement by statement
 (`Model/Text.lean`); `textOf`/`textOfL` is the recursive evaluator, `joinSpec`/`List.intercalate` the meaning of
-`separator.join`, `SoleChain`/`Occurs` the relations the statement talks about. The tables (`mainContentStringTypes`,
-`htmlStringContainers`, `pyWhitespace`) are generated from the live objects on every run. -/
+`separator.join`, `SoleChain`/`Occurs` the relations the statement talks about. The tables (`c13MainContentStringTypes`,
+`c13HtmlStringContainers`, `pyWhitespace`) are generated from the live objects on every run. -/
 namespace BS.Props.C13
 open BS.Text
 
-abbrev main := BS.Gen.mainContentStringTypes
-abbrev containers := BS.Gen.htmlStringContainers
+abbrev main := BS.Gen.c13MainContentStringTypes
+abbrev containers := BS.Gen.c13HtmlStringContainers
 
 /-- the pieces after the class test: as they are, or each one trimmed and the empty ones dropped -/
 def pieces (strp : Bool) (l : List PStr) : List PStr :=
@@ -99,7 +100,7 @@ theorem spec_append (sel : StrClass → Bool) (a b : List Node) :
 
 /-- Table fact: `Tag.MAIN_CONTENT_STRING_TYPES` is exactly {NavigableString, CData}. -/
 theorem main_types_table (c : StrClass) : main.contains c = isMain c := by
-  cases c <;> simp [main, BS.Gen.mainContentStringTypes, isMain]
+  cases c <;> simp [main, BS.Gen.c13MainContentStringTypes, isMain]
 
 /-- Table fact: the default string containers of the HTML builders are script, style, template, rt, rp with their
     own classes, and no container class is a main content class. -/
@@ -107,7 +108,7 @@ theorem containers_table :
     containers.lookup (ofS "script") = some .script ∧ containers.lookup (ofS "style") = some .stylesheet ∧
     containers.lookup (ofS "template") = some .templateString ∧ containers.lookup (ofS "rt") = some .rubyTextString ∧
     containers.lookup (ofS "rp") = some .rubyParenthesisString ∧ containers.length = 5 ∧
-    (containers.all fun p => !main.contains p.2) = true ∧ BS.Gen.baseStringContainers = [] := by
+    (containers.all fun p => !main.contains p.2) = true ∧ BS.Gen.c13BaseStringContainers = [] := by
   decide +kernel
 
 /-- Ordinary element (its name is not a string container of the builder that made it), default arguments:
@@ -538,5 +539,153 @@ example : (run (BS.ParseLink.prun BS.ParseLink.PSt.init [.newTag, .newStr, .newT
     (fun h => (h.kids 1, h.kids 3)) = some ([6, 3, 5], [4, 2]) := by decide +kernel
 
 end heap
+
+/-! ## 10. configuration: the builder's `string_containers`, builder-less tags, `new_tag`, copies, nesting -/
+
+/-- `TreeBuilder.__init__`: an omitted `string_containers` means the class default, a dictionary — the empty one
+    included — replaces it entirely, `None` is stored as `None`. -/
+theorem config_option (dflt l : List (PStr × StrClass)) :
+    builderStringContainers dflt .useDefault = some dflt ∧ builderStringContainers dflt (.dict l) = some l ∧
+    builderStringContainers dflt .none = none := ⟨rfl, rfl, rfl⟩
+
+/-- `Tag.__init__`, every case: with a builder the `interesting_string_types` argument is ignored and the builder's
+    table decides (own class for a container name, main content classes otherwise — `new_tag` and the parser go
+    through the same call); without a builder the argument is kept as given; a builder configured with
+    `string_containers=None` makes every tag construction raise `TypeError` (recorded, not a documented value). -/
+theorem tag_init_cases (mn : List StrClass) (cont : List (PStr × StrClass)) (nm : PStr) (p : Interesting) :
+    tagInitInteresting mn (some (some cont)) nm p = .ok (interestingFor mn cont nm) ∧
+    newTagInteresting mn (some cont) nm = .ok (interestingFor mn cont nm) ∧
+    tagInitInteresting mn none nm p = .ok p ∧
+    copySelfInteresting mn nm p = .ok p ∧
+    tagInitInteresting mn (some none) nm p = .typeError ∧ newTagInteresting mn none nm = .typeError :=
+  ⟨rfl, rfl, rfl, rfl, rfl, rfl⟩
+
+/-- `string_containers={}` (and the plain `TreeBuilder`, whose default table is empty): no element is a container, not
+    even script/style/template — every element counts NavigableString and CData, and plain parsed text is a
+    NavigableString wherever it stands. -/
+theorem empty_config_all_ordinary (dflt : List (PStr × StrClass)) (nm : PStr) (p : Interesting)
+    (openNames : List PStr) (strp : Bool) (kids : List Node) :
+    tagInitInteresting main (some (builderStringContainers dflt (.dict []))) nm p = .ok (.many main) ∧
+    stringContainer [] [] (containerStackTop [] openNames) none = .navigableString ∧
+    allStringsImpl main strp .dflt (.tag nm (interestingFor main [] nm) kids) = pieces strp (textOfL isMain kids) := by
+  refine ⟨rfl, ?_, default_types_ordinary strp [] nm kids rfl⟩
+  have : containerStackTop [] openNames = none := containerStackTop_none [] openNames (fun _ _ => rfl)
+  rw [this]; rfl
+
+example : tagInitInteresting main (some (builderStringContainers containers (.dict []))) (ofS "script") .none =
+    .ok (.many [.navigableString, .cData]) := by decide
+example : tagInitInteresting main (some (builderStringContainers containers .useDefault)) (ofS "script") (.one .comment) =
+    .ok (.many [.script]) := by decide
+example : tagInitInteresting main none (ofS "script") .none = .ok .none := by decide
+example : tagInitInteresting main (some (builderStringContainers containers .none)) (ofS "p") .none = .typeError := by decide
+
+/-- A builder-less tag made without `interesting_string_types` counts the main content classes, whatever its name
+    (a bare `Tag(name="script")` is *not* a string container). -/
+theorem builderless_tag_counts_main (strp : Bool) (nm : PStr) (kids : List Node) :
+    ∃ i, tagInitInteresting main none nm .none = .ok i ∧
+      allStringsImpl main strp .dflt (.tag nm i kids) = pieces strp (textOfL isMain kids) :=
+  ⟨.none, rfl, default_types_none strp nm kids⟩
+
+/-- Copies (`copy.copy`, `copy.deepcopy`, `copy_self` on every tag, `type(s)(s)` on every string) keep every tag's
+    `interesting_string_types` and every string's class: every extraction on the copy equals the one on the original. -/
+theorem copy_same_text (mn : List StrClass) (sep : PStr) (strp : Bool) (types : TypesArg) (n : Node) :
+    copyNode mn n = n ∧
+    allStringsImpl mn strp types (copyNode mn n) = allStringsImpl mn strp types n ∧
+    getTextImpl mn sep strp types (copyNode mn n) = getTextImpl mn sep strp types n ∧
+    stringProp (copyNode mn n) = stringProp n := by
+  rw [copyNode_id]; exact ⟨rfl, rfl, rfl, rfl⟩
+
+/-- Copying a whole BeautifulSoup object is different at the root only: `BeautifulSoup.copy_self` builds a new root
+    from the same builder, so the root counts what the builder's table says for its name again, whatever had been
+    assigned to the original root by hand (recorded behaviour; every element below goes through `Tag.copy_self`). -/
+theorem soup_copy_root_from_builder (mn : List StrClass) (cont : List (PStr × StrClass)) (root : PStr) (orig : Interesting) :
+    soupCopySelfInteresting mn (some cont) root orig = .ok (interestingFor mn cont root) := rfl
+
+example : copyNode main demo = demo := (copy_same_text main [] false .dflt demo).1
+
+/-- Nested containers: plain text gets the class of the **innermost** open container element (whatever other
+    containers are open further out), and NavigableString when none is open. -/
+theorem nested_containers_innermost (cont : List (PStr × StrClass)) (pre : List PStr) (nm : PStr) (post : List PStr)
+    (c : StrClass) (hpre : ∀ g ∈ pre, cont.lookup g = none) (hnm : cont.lookup nm = some c) :
+    stringContainer [] cont (containerStackTop cont (pre ++ nm :: post)) none = c := by
+  rw [containerStackTop_split cont pre nm post c hpre hnm]
+  simp [stringContainer, hnm]
+
+theorem no_container_open (cont : List (PStr × StrClass)) (names : List PStr)
+    (h : ∀ g ∈ names, cont.lookup g = none) :
+    stringContainer [] cont (containerStackTop cont names) none = .navigableString := by
+  rw [containerStackTop_none cont names h]; rfl
+
+example : stringContainer [] containers (containerStackTop containers [ofS "b", ofS "rt", ofS "p", ofS "template", ofS "div"])
+    none = .rubyTextString := by decide
+example : (∀ g ∈ [ofS "b"], containers.lookup g = none) ∧ containers.lookup (ofS "rt") = some .rubyTextString := by decide
+
+/-! ### the parser: C03's machine with this configuration
+
+`BS.Builder` (Model/Builder.lean, property C03) mirrors `pushTag`/`popTag`/`_popToTag`/`endData`/`string_container`
+for **every** event list, with string classes as numbers (`0` = NavigableString) and an abstract
+`cfg.container`. `StrClass.code` is that numbering; the theorem below instantiates C03's machine with a
+`string_containers` table and identifies the class it gives to pending text with `stringContainer` on the innermost
+open container. With C03's `endData_is_flush`/`build_refines` this holds in every state the parser can reach. -/
+section parser
+open BS.Builder
+
+/-- the configuration C03's machine sees for a `string_containers` table -/
+def builderCfg (cont : List (PStr × StrClass)) (preserve : Name → Bool) (ascii : List Nat) (root : Name) : Cfg :=
+  { preserve := preserve, container := fun n => (cont.lookup n).map StrClass.code, asciiSpaces := ascii, rootName := root }
+
+theorem classFor_eq_stringContainer (cont : List (PStr × StrClass)) (preserve : Name → Bool) (ascii : List Nat)
+    (root : Name) (stack : List Frame) :
+    classFor (builderCfg cont preserve ascii root) stack none =
+      (Text.stringContainer [] cont (containerStackTop cont (stack.map (·.name))) none).code := by
+  simp only [classFor, containerStackTop, builderCfg]
+  induction stack with
+  | nil => simp [Text.stringContainer, StrClass.code]
+  | cons f fs ih =>
+    simp only [List.map_cons, List.find?]
+    cases hl : cont.lookup f.name with
+    | none => simpa [hl] using ih
+    | some c => simp [hl, Text.stringContainer]
+
+/-- **Parsed text gets the class of the innermost open string-container element**: one flush of pending plain text, in
+    any parser state (any open elements `top :: rest`, any pending chunks), appends exactly one string whose class is
+    `stringContainer` of the innermost open container (else NavigableString). -/
+theorem parsed_text_class (cont : List (PStr × StrClass)) (preserve : Name → Bool) (ascii : List Nat) (root : Name)
+    (top : Frame) (rest : List Frame) (b : List PStr) (hb : b ≠ []) :
+    ∃ s, sFlush (builderCfg cont preserve ascii root) ⟨top :: rest, b⟩ none =
+      ⟨{ top with kids := top.kids ++
+          [Doc.text (Text.stringContainer [] cont (containerStackTop cont ((top :: rest).map (·.name))) none).code s] } :: rest, []⟩ := by
+  rw [← classFor_eq_stringContainer cont preserve ascii root (top :: rest)]
+  cases b with
+  | nil => exact absurd rfl hb
+  | cons x xs => exact ⟨_, rfl⟩
+
+/-- **Never the contents of script/style/template (rt, rp) seen from outside**, with the default tables: plain text
+    flushed while the innermost open container is one of the five default container elements becomes a string that no
+    ordinary element's extraction yields and that the container's own extraction yields — wherever in the tree it
+    later sits. -/
+theorem container_contents_invisible (preserve : Name → Bool) (ascii : List Nat) (root : Name)
+    (top : Frame) (rest : List Frame) (b : List PStr) (hb : b ≠ []) (pre : List Name) (nm : Name) (post : List Name)
+    (c : StrClass) (hsplit : (top :: rest).map (·.name) = pre ++ nm :: post)
+    (hpre : ∀ g ∈ pre, containers.lookup g = none) (hnm : containers.lookup nm = some c) :
+    ∃ s, sFlush (builderCfg containers preserve ascii root) ⟨top :: rest, b⟩ none =
+        ⟨{ top with kids := top.kids ++ [Doc.text c.code s] } :: rest, []⟩ ∧
+      textOf isMain (.str (StrClass.ofCode c.code) s) = [] ∧
+      textOf (fun d => d == c) (.str (StrClass.ofCode c.code) s) = [s] := by
+  obtain ⟨s, hs⟩ := parsed_text_class containers preserve ascii root top rest b hb
+  rw [hsplit, nested_containers_innermost containers pre nm post c hpre hnm] at hs
+  refine ⟨s, hs, ?_, ?_⟩
+  · rw [ofCode_code]
+    have hall : (containers.all fun p => !main.contains p.2) = true := containers_table.2.2.2.2.2.2.1
+    have := List.all_eq_true.mp hall (nm, c) (lookup_mem nm c containers hnm)
+    simp only [Bool.not_eq_true', main_types_table] at this
+    simp [textOf, this]
+  · rw [ofCode_code]; simp [textOf]
+
+example : (∀ g ∈ [ofS "b"], containers.lookup g = none) ∧ containers.lookup (ofS "script") = some .script ∧
+    (([⟨ofS "b", none, []⟩, ⟨ofS "script", none, []⟩, ⟨[0], none, []⟩] : List Frame).map (·.name)) =
+      [ofS "b"] ++ ofS "script" :: [[0]] := by decide
+
+end parser
 
 end BS.Props.C13
